@@ -58,6 +58,8 @@ package markdown
 //@ // representation of what the `markdown` setup builds: live configurations, each with its template and template files
 //@ func (Markdown).ServeHTTP
 //@   requires w != nil && r != nil && r.URL != nil && md.Next != nil && forall(k, 0, len(md.Configs), md.Configs[k] != nil)
+//@ func execTemplate
+//@   requires c != nil && c.Template != nil && forallT(n, string, has(c.TemplateFiles, n) ==> c.TemplateFiles[n] != nil)
 //@ func execTemplate$1
 //@   requires c != nil && c.Template != nil && forallT(n, string, has(c.TemplateFiles, n) ==> c.TemplateFiles[n] != nil)
 
